@@ -92,6 +92,8 @@ const T = {
   dcDynDefault: (i) => `const DY${i} = defineComponent((props: { a?: string } = uo as any) => null);\n__out.k${i} = () => 1;`,
   dcSpreadDefault: (i) => `const DS${i} = defineComponent((props: { a?: string } = { ...(uo as any) }) => null, { inheritAttrs: false });\n__out.k${i} = () => 1;`,
   dcOwnPropsDynDefault: (i) => `const DW${i} = defineComponent((props: { a?: string } = uo as any) => null, { props: { a: String } });\n__out.k${i} = () => 1;`,
+  dcJsxDefault: (i) => `const DJ${i} = defineComponent((props: { icon?: object } = { icon: <i class="x" /> }) => () => null);\n__out.k${i} = () => 1;`,
+  dcJsxDynDefault: (i) => `const DK${i} = defineComponent((props: { icon?: object } = f(<i class="y" />) as any) => () => <b />);\n__out.k${i} = () => 1;`,
   localDc:   (i) => `function ldc${i}() { const defineComponent = (s: any, o?: any) => [s, o]; const Loc = defineComponent((props: { a: string }) => null); return Loc; }\n__out.k${i} = () => ldc${i}().length;`,
   tsDecl:    (i) => `type TA${i} = { x: number };\ninterface TI${i} { y: string }\n__out.k${i} = () => 1;`,
   asExpr:    (i) => `const ae${i} = (x as any) satisfies unknown;\n__out.k${i} = () => ae${i};`,
@@ -109,8 +111,8 @@ function itemSrc(item, i) {
   return K[item.k](i, L[item.l].J);
 }
 function itemKey(item) { return item.t ? 'T:' + item.t : item.d ? 'D:' + item.d : `${item.k}∘${item.l}`; }
-const T_JSX = new Set(['dcProps', 'dcEmits', 'typedArrow', 'genericArrow', 'asyncTyped']);
-const T_DC = new Set(['dcProps', 'dcIface', 'dcIdentOpts', 'dcEmits', 'dcDefault', 'dcDynDefault', 'dcSpreadDefault', 'dcOwnPropsDynDefault', 'callDc', 'exportDc']);
+const T_JSX = new Set(['dcJsxDefault', 'dcJsxDynDefault', 'dcProps', 'dcEmits', 'typedArrow', 'genericArrow', 'asyncTyped']);
+const T_DC = new Set(['dcProps', 'dcIface', 'dcIdentOpts', 'dcEmits', 'dcDefault', 'dcDynDefault', 'dcSpreadDefault', 'dcOwnPropsDynDefault', 'dcJsxDefault', 'dcJsxDynDefault', 'callDc', 'exportDc']);
 function itemHasJsx(item) { return item.t ? T_JSX.has(item.t) : item.d ? !!D[item.d].jsx : true; }
 function itemAugmentable(item) { return !!item.t && T_DC.has(item.t); }
 
